@@ -748,10 +748,10 @@ impl Expression {
                 match ps.peek::<0>() {
                     Some(d) if ('0'..='7').contains(&d) => {
                         // parse as OCT
-                        let mut num = 0i64;
+                        let mut num = RadixIntAccumulator::new(3);
                         loop {
-                            let d = ps.next().unwrap() as i64 - '0' as i64;
-                            num = num * 8 + d;
+                            let d = ps.next().unwrap() as u32 - '0' as u32;
+                            num.push(d);
                             let Some(peek) = ps.peek::<0>() else { break };
                             if !is_ident_char(peek) {
                                 break;
@@ -763,65 +763,34 @@ impl Expression {
                                 return None;
                             }
                         }
-                        return Some(Box::new(Expression::LitInt {
-                            value: num,
-                            location: pos..ps.position(),
-                        }));
+                        return Some(Box::new(num.finish(pos..ps.position())));
                     }
                     Some('x') => {
                         // parse as HEX
                         ps.next(); // 'x'
-                        let mut num = 0i64;
+                        let mut num = RadixIntAccumulator::new(4);
                         let peek = ps.peek::<0>()?;
-                        if !('0'..='9').contains(&peek)
-                            && !('a'..='z').contains(&peek)
-                            && !('A'..='Z').contains(&peek)
-                        {
+                        if !peek.is_ascii_hexdigit() {
                             ps.add_warning_at_current_position(
                                 ParseErrorKind::UnexpectedExpressionCharacter,
                             );
                             return None;
                         }
                         loop {
-                            let ch = ps.next().unwrap();
-                            let d = match ch {
-                                '0' => 0,
-                                '1' => 1,
-                                '2' => 2,
-                                '3' => 3,
-                                '4' => 4,
-                                '5' => 5,
-                                '6' => 6,
-                                '7' => 7,
-                                '8' => 8,
-                                '9' => 9,
-                                'a' | 'A' => 10,
-                                'b' | 'B' => 11,
-                                'c' | 'C' => 12,
-                                'd' | 'D' => 13,
-                                'e' | 'E' => 14,
-                                'f' | 'F' => 15,
-                                _ => unreachable!(),
-                            };
-                            num = num * 16 + d;
+                            let d = ps.next().unwrap().to_digit(16).unwrap();
+                            num.push(d);
                             let Some(peek) = ps.peek::<0>() else { break };
                             if !is_ident_char(peek) {
                                 break;
                             }
-                            if !('0'..='9').contains(&peek)
-                                && !('a'..='z').contains(&peek)
-                                && !('A'..='Z').contains(&peek)
-                            {
+                            if !peek.is_ascii_hexdigit() {
                                 ps.add_warning_at_current_position(
                                     ParseErrorKind::UnexpectedExpressionCharacter,
                                 );
                                 return None;
                             }
                         }
-                        return Some(Box::new(Expression::LitInt {
-                            value: num,
-                            location: pos..ps.position(),
-                        }));
+                        return Some(Box::new(num.finish(pos..ps.position())));
                     }
                     Some('e') | Some('.') | Some('8') | Some('9') => {
                         // do nothing
@@ -842,7 +811,8 @@ impl Expression {
             }
 
             // parse as normal DEC
-            let mut int = Some(0);
+            let mut int = Some(0i64);
+            let mut int_overflowed = false;
             loop {
                 let next = ps.next().unwrap();
                 if next == 'e' {
@@ -872,18 +842,24 @@ impl Expression {
                 }
                 if next == '.' {
                     int = None;
+                    int_overflowed = false;
                 } else {
                     // '0'..='9'
-                    if let Some(x) = int.as_mut() {
+                    if let Some(x) = int {
                         let d = next as i64 - '0' as i64;
-                        *x = *x * 10 + d;
+                        // an integer which does not fit is handled as a float
+                        int = x.checked_mul(10).and_then(|x| x.checked_add(d));
+                        int_overflowed = int_overflowed || int.is_none();
                     }
                 }
                 let Some(peek) = ps.peek::<0>() else { break };
                 if !is_ident_char(peek) && peek != '.' {
                     break;
                 }
-                if ('0'..='9').contains(&peek) || (int.is_some() && peek == '.') || peek == 'e' {
+                if ('0'..='9').contains(&peek)
+                    || ((int.is_some() || int_overflowed) && peek == '.')
+                    || peek == 'e'
+                {
                     // empty
                 } else {
                     ps.add_warning_at_current_position(
@@ -1051,6 +1027,48 @@ impl Expression {
             question_location,
             colon_location,
         }))
+    }
+}
+
+/// Accumulates the digits of a hexadecimal or octal literal without overflow:
+/// the exact `i64` while it fits, the correctly rounded `f64` otherwise.
+struct RadixIntAccumulator {
+    bits_per_digit: u32,
+    high: u128,
+    dropped_bits: u32,
+    dropped_nonzero: bool,
+}
+
+impl RadixIntAccumulator {
+    fn new(bits_per_digit: u32) -> Self {
+        Self {
+            bits_per_digit,
+            high: 0,
+            dropped_bits: 0,
+            dropped_nonzero: false,
+        }
+    }
+
+    fn push(&mut self, digit: u32) {
+        if self.dropped_bits == 0 && self.high.leading_zeros() >= self.bits_per_digit {
+            self.high = (self.high << self.bits_per_digit) | digit as u128;
+        } else {
+            // more than 128 significant bits: only remember if anything non-zero is dropped
+            self.dropped_bits = self.dropped_bits.saturating_add(self.bits_per_digit);
+            self.dropped_nonzero = self.dropped_nonzero || digit != 0;
+        }
+    }
+
+    fn finish(self, location: Range<Position>) -> Expression {
+        if self.dropped_bits == 0 && self.high <= i64::MAX as u128 {
+            return Expression::LitInt {
+                value: self.high as i64,
+                location,
+            };
+        }
+        let rounded = (self.high | self.dropped_nonzero as u128) as f64;
+        let value = rounded * 2f64.powi(self.dropped_bits.min(4096) as i32);
+        Expression::LitFloat { value, location }
     }
 }
 
